@@ -331,7 +331,15 @@ class CFG:
                                                  set(avoid_nodes), avoid_edges, explicit_only, None)}
 
     def _learn(self, test_e, lab, f2):
-        """what taking the `lab` edge of a test establishes about once-bound boolean locals (added to the dict f2)"""
+        """what taking the `lab` edge of a test establishes about once-bound boolean locals (added to the dict f2), and about
+        the conditions registered in self.stable_atoms (conditions over state that nothing run by this function changes:
+        the caller vouches for that, e.g. an attribute only the constructor writes)"""
+        for kind in ("stable_atoms", "local_atoms"):
+            for i, at in enumerate(getattr(self, kind, ())):
+                tt, tf = truth_on_branch(self._resolve_flags(test_e), at)
+                k = tt if lab == 'T' else tf
+                if k is not None and (kind, i) not in f2:
+                    f2[(kind, i)] = 'truthy' if k else 'falsy-bool'
         for bn in self._boolnames():
             if bn in f2:
                 continue
@@ -391,6 +399,12 @@ class CFG:
                 if test_e is not None and lab in ('T', 'F'):
                     dead = False
                     for name, val in facts:
+                        if isinstance(name, tuple):
+                            tt, tf = truth_on_branch(self._resolve_flags(test_e), getattr(self, name[0])[name[1]])
+                            k = tt if lab == 'T' else tf
+                            if k is not None and k != (val == 'truthy'):
+                                dead = True
+                            continue
                         isname = (lambda e, name=name: isinstance(e, ast.Name) and e.id == name)
                         tn, fn_ = truth_on_branch(test_e, none_atom(isname))
                         known_none = tn if lab == 'T' else fn_
@@ -409,6 +423,10 @@ class CFG:
                 elif isinstance(s, ast.AST) and lab != 'exc':
                     for t in _stored_simple(s):
                         f2.pop(t, None)
+                    if any(isinstance(k, tuple) and k[0] == "local_atoms" for k in f2) \
+                            and _may_change_self(s, getattr(self, "local_atom_attrs", None)):
+                        for k in [k for k in f2 if isinstance(k, tuple) and k[0] == "local_atoms"]:
+                            f2.pop(k)
                     if isinstance(s, ast.Assign) and len(s.targets) == 1 and isinstance(s.targets[0], ast.Name) \
                             and isinstance(s.value, ast.Constant):
                         v = s.value.value
@@ -638,6 +656,34 @@ class CFG:
 
 def _is_code(s):
     return isinstance(s, ast.AST) or (isinstance(s, tuple) and s[0] == "COND")
+
+
+def _may_change_self(s, attrs=None):
+    """could executing the statement change an attribute of self (one of `attrs`, when given)?  (a store to such an
+    attribute, or a call on self / through an attribute of self; calls of plain names - constructors, builtins, module
+    functions - are taken not to)"""
+    tops = [s]
+    if isinstance(s, (ast.If, ast.While)):
+        tops = [s.test]
+    elif isinstance(s, (ast.For, ast.AsyncFor)):
+        tops = [s.iter]
+    elif isinstance(s, (ast.With, ast.AsyncWith)):
+        tops = [i.context_expr for i in s.items]
+    elif isinstance(s, (ast.FunctionDef, ast.AsyncFunctionDef, ast.ClassDef, ast.ExceptHandler, ast.Try)):
+        return False
+    for top in tops:
+        for n in ast.walk(top):
+            if isinstance(n, ast.Attribute) and isinstance(n.ctx, (ast.Store, ast.Del)) and (attrs is None or n.attr in attrs):
+                return True
+            if isinstance(n, ast.Call):
+                f = n.func
+                while isinstance(f, (ast.Attribute, ast.Subscript)):
+                    f = f.value
+                if not isinstance(f, ast.Name) or f.id == "self" or isinstance(n.func, ast.Attribute):
+                    return True
+            if isinstance(n, (ast.Await, ast.Yield, ast.YieldFrom)):
+                return True
+    return False
 
 
 def _stored_simple(s):
